@@ -65,21 +65,22 @@ theorem scanPartitions_total (c : Cfg) (start stop : Bytes) : ∃ parts, scanPar
 
 /-! ### where a worker's panic comes from -/
 
-theorem expireStep_panic {w : WCfg} {live : Bytes} {r : Rec} {acts : List Act}
-    (he : expireStep w live r = some acts) (h : Act.panic ∈ acts) : acts = [.panic] := by
+theorem expireStep_panic {w : WCfg} {live gone : Bytes} {snap : List Rec} {r : Rec} {acts : List Act}
+    (he : expireStep w live gone snap r = some acts) (h : Act.panic ∈ acts) : acts = [.panic] := by
   unfold expireStep at he
-  cases hx : expiry w live r with
+  cases hx : expiry w live gone r with
   | panic => rw [hx] at he; cases he; rfl
   | idx => rw [hx] at he; cases he; simp at h
+  | gone => rw [hx] at he; cases he; simp at h
   | ver => rw [hx] at he; cases he; simp at h
   | noLive => rw [hx] at he; cases he
   | no => rw [hx] at he; cases he
 
 /-- `compactIfExpired` panics exactly when `expiry` says so -/
-theorem expireStep_eq_panic_iff {w : WCfg} {live : Bytes} {r : Rec} :
-    expireStep w live r = some [.panic] ↔ expiry w live r = .panic := by
+theorem expireStep_eq_panic_iff {w : WCfg} {live gone : Bytes} {snap : List Rec} {r : Rec} :
+    expireStep w live gone snap r = some [.panic] ↔ expiry w live gone r = .panic := by
   unfold expireStep
-  cases expiry w live r <;> simp
+  cases expiry w live gone r <;> simp
 
 /-- the loop body below the `compactIfExpired` call never panics (any configuration): a panic of an iteration is
 a panic of `compactIfExpired` -/
@@ -131,11 +132,11 @@ non-zero timeout revision, met the REVISION RECORD (revision 0) of an event key 
 bytes `binary.BigEndian.Uint64` reads — a value the backend never writes (revision-record values are 8 or 9 bytes
 long: C10 `parseRevision_*`). Stated of the worker loop as it runs (`passLoop`: whatever it remembers — `prev`, the
 live event key, the store and the failed key — and whatever the engine answers to its delete calls). -/
-theorem passLoop_panic_source {w : WCfg} {mask : Nat → DelOutcome} {p : Prev} {live : Bytes} {st : CompState}
-    {recs : List Rec} (h : Act.panic ∈ (passLoop w mask p live st recs).1) :
+theorem passLoop_panic_source {w : WCfg} {mask : Nat → DelOutcome} {snap : List Rec} {p : Prev} {live gone : Bytes}
+    {st : CompState} {recs : List Rec} (h : Act.panic ∈ (passLoop w mask snap p live gone st recs).1) :
     w.supportTTL = false ∧ w.timeout ≠ 0 ∧
       ∃ r ∈ recs, r.rev = 0 ∧ isEventKey w r.key = true ∧ r.val.length < 8 := by
-  induction recs generalizing p live st with
+  induction recs generalizing p live gone st with
   | nil => exact absurd h (by simpa [passLoop] using emitPrev_no_panic p)
   | cons x xs ih =>
     have lift : (w.supportTTL = false ∧ w.timeout ≠ 0 ∧
@@ -145,13 +146,13 @@ theorem passLoop_panic_source {w : WCfg} {mask : Nat → DelOutcome} {p : Prev} 
       rintro ⟨a, b, r, hr, hrest⟩
       exact ⟨a, b, r, by simp [hr], hrest⟩
     rw [passLoop_cons] at h
-    rcases expiry_cases w live x with hno | ⟨hs, hT, hev, hc⟩
+    rcases expiry_cases w live gone x with hno | ⟨hs, hT, hev, hc⟩
     · rw [hno] at h
       simp only [List.mem_append] at h
       rcases h with h | h
       · exact absurd h (workerStep_no_panic w p x)
       · exact lift (ih h)
-    · rcases hc with ⟨_, hr, hv⟩ | ⟨he, _⟩ | ⟨he, _⟩ | ⟨he, _⟩
+    · rcases hc with ⟨_, hr, hv⟩ | ⟨he, _⟩ | ⟨he, _⟩ | ⟨he, _⟩ | ⟨he, _⟩
       · exact ⟨hs, hT, x, by simp, hr, hev, hv⟩
       · rw [he] at h
         simp only [List.mem_cons, reduceCtorEq, false_or] at h
@@ -162,6 +163,8 @@ theorem passLoop_panic_source {w : WCfg} {mask : Nat → DelOutcome} {p : Prev} 
         · exact absurd h (workerStep_no_panic w p x)
         · exact lift (ih h)
       · rw [he] at h
+        exact lift (ih h)
+      · rw [he] at h
         simp only [List.mem_cons, reduceCtorEq, false_or] at h
         exact lift (ih h)
 
@@ -169,8 +172,10 @@ theorem passRun_panic_source {w : WCfg} {mask : Nat → DelOutcome} {st : CompSt
     (h : hasPanic (passRun w mask st recs).1 = true) :
     w.supportTTL = false ∧ w.timeout ≠ 0 ∧
       ∃ r ∈ recs, r.rev = 0 ∧ isEventKey w r.key = true ∧ r.val.length < 8 := by
-  apply passLoop_panic_source (mask := mask) (p := {}) (live := []) (st := { st with lastFailed := [] })
-  simpa [hasPanic, passRun] using h
+  apply passLoop_panic_source (mask := mask) (snap := recs) (p := {}) (live := []) (gone := [])
+    (st := { st with lastFailed := [] })
+  rw [passRun_eq] at h
+  simpa [hasPanic] using h
 
 /-- a worker that neither compacts nor expires (a range read) never panics -/
 theorem hasPanic_read (R : Nat) (ttl : Bool) (recs : List Rec) :
